@@ -19,6 +19,7 @@ mod c15;
 mod c16;
 mod c17;
 mod c18;
+mod c19;
 mod c20;
 mod gen;
 mod prog;
@@ -63,6 +64,16 @@ fn main() {
     }
     if args[0] == "selftest" {
         std::process::exit(selftest());
+    }
+    if args[0] == "warm-c19" {
+        // compile the dependencies of the C19 batch crate once (serde_derive, syn, the typeshare lib ...)
+        let run = Run::new("C19", Tier::Quick);
+        let t: c19::Twin = serde_json::from_value(serde_json::json!({"items": [], "template": 0, "planted_error": false})).unwrap();
+        let dir = std::path::PathBuf::from(format!("{VERIF}/work/c19-warm"));
+        let _ = std::fs::create_dir_all(&dir);
+        let v = c19::evaluate_batch(&run, &[t], &dir, false);
+        let _ = std::fs::remove_dir_all(&dir);
+        std::process::exit(if v.is_empty() { 0 } else { 2 });
     }
     if args[0] == "observe" && args.len() == 3 {
         std::process::exit(observe_cmd(&args[1], &args[2]));
@@ -114,6 +125,7 @@ fn table(prop: &str) -> Option<(RunFn, ReplayFn)> {
         "C16" => (c16::run, c16::replay),
         "C17" => (c17::run, c17::replay),
         "C18" => (c18::run, c18::replay),
+        "C19" => (c19::run, c19::replay),
         "C20" => (c20::run, c20::replay),
         _ => return None,
     })
